@@ -46,12 +46,15 @@ func worldFor(ps *propSpec, idx int) World {
 	return worlds[ps.Worlds[idx%len(ps.Worlds)]]
 }
 
-func runWorker(ps *propSpec, tier string, seed uint64, from, to int, digests bool, budget int) *workerOut {
+func runWorker(ps *propSpec, tier string, seed uint64, from, to, stride int, digests bool, budget int) *workerOut {
+	if stride < 1 {
+		stride = 1
+	}
 	out := &workerOut{Faults: map[string]int{}, Probes: map[string]int{}}
 	shapes := map[uint64]bool{}
 	classes := map[string]int{}
 	start := time.Now()
-	for idx := from; idx < to; idx++ {
+	for idx := from; idx < to; idx += stride {
 		if budget > 0 && idx > from && time.Since(start) > time.Duration(budget)*time.Second {
 			out.TimedOut = true
 			break
@@ -415,20 +418,18 @@ func drive(ps *propSpec, tier string, seed uint64, evidencePath, replayDir, find
 		err error
 	}
 	ch := make(chan wres, nworkers)
-	per := (runs + nworkers - 1) / nworkers
 	launched := 0
 	for w := 0; w < nworkers; w++ {
-		from, to := w*per, (w+1)*per
-		if to > runs {
-			to = runs
-		}
+		// worker w takes run indices w, w+n, w+2n, ...: which runs exist does
+		// not depend on the worker count, only who executes them
+		from, to := w, runs
 		if from >= to {
 			continue
 		}
 		launched++
 		go func(from, to int) {
 			cmd := exec.Command(os.Args[0], "-worker", "-prop", ps.ID, "-tier", tier, "-seed", fmt.Sprint(seed),
-				"-from", fmt.Sprint(from), "-to", fmt.Sprint(to), "-budget", fmt.Sprint(budget))
+				"-from", fmt.Sprint(from), "-to", fmt.Sprint(to), "-stride", fmt.Sprint(nworkers), "-budget", fmt.Sprint(budget))
 			var so, se bytes.Buffer
 			cmd.Stdout, cmd.Stderr = &so, &se
 			err := cmd.Run()
